@@ -323,14 +323,20 @@ BUCKET_PUT_MODIFIES = [
 
 contract(M + ':Bucket.put', types={'app': 'Application', 'return': 'Bool', 'node': 'Opt[Node]'},
          ghost={'servers': 'Dict[Name,Server]'},
-         requires=['in_cell(self)', 'put_pre(app, servers)'],
+         requires=['in_cell(self)', 'put_pre(app, servers)', ('C04', 'tree_wf()')],
          ensures=['srv_ok(servers)', 'all_strategies_ok()', 'strat_nodes_ok()', 'clock_now() >= old(clock_now())',
                   'implies(not result, put_failed(app, servers))',
-                  'implies(result, put_done(app, servers))'],
+                  'implies(result, put_done(app, servers))',
+                  # C04: counters move by exactly one placement, and every node on the way down had head-room
+                  ('C04', 'implies(not result, counters_same())', 'fail_same'),
+                  ('C04', 'implies(result, placed_delta(servers[app.server], app))', 'delta'),
+                  ('C04', 'implies(result, forall(lambda r: implies((r == servers[app.server] or '
+                          '  anc(r, servers[app.server])) and not anc(r, self), old(aff_room_at(r, app))), "Node"))',
+                   'path_room')],
          modifies=BUCKET_PUT_MODIFIES, props=['C01', 'C03'])
 invariant(M + ':Bucket.put', 0, 'while True',
           ['srv_ok(servers)', 'all_strategies_ok()', 'strat_nodes_ok()', 'put_failed(app, servers)',
-           'clock_now() >= old(clock_now())',
+           'clock_now() >= old(clock_now())', ('C04', 'counters_same()'), ('C04', 'tree_wf()'),
            'strategy.node == self and alive(strategy)',
            'node is not None and exists(lambda j: 0 <= j and j < len(self.children) and '
            '   self.children[j] == node, "Int")'])
@@ -393,7 +399,9 @@ contract(M + ':Cell._find_placements',
                    ('C05,C08', 'blacklist_ok(self)'),
                    # clause 4 holds when the walk starts (left by the previous cycle and the pre-passes)
                    ('C05', 'all_unplaced_free(self)'), ('C05', 'ident_nonneg(self)'),
-                   ('C03', 'standing_ok(self, servers)')],
+                   ('C03', 'standing_ok(self, servers)'),
+                   ('C04', 'tree_wf()'), ('C04', 'self.parent is None'), ('C04', 'limits_shared(self)'),
+                   ('C04', 'lim_ok()')],
          ensures=['apps_ok(self)', 'srv_ok(servers)', 'link_ok(self, servers)', 'back_ok(self, servers)',
                   'ident_ok(self)', 'all_strategies_ok()', 'strat_nodes_ok()', 'no_renew(self)',
                   ('C05', 'groups_ok(self)'), ('C05', 'held_distinct(self)'), ('C05', 'held_not_free(self)'), ('C05', 'in_range_ok(self)'),
@@ -406,6 +414,7 @@ contract(M + ':Cell._find_placements',
                           '  self.apps[n].server != old(self.apps[n].server), assigned_ok(self.apps[n], servers)), "Name")'),
                   ('C03', 'standing_ok(self, servers)'), ('C03', 'lease_same(self)'),
                   ('C03', 'clock_now() >= old(clock_now())'),
+                  ('C04', 'lim_ok()', 'lim_ok'),
                   ('C08', 'nonup_kept_unless_capped(self, servers)'),
                   # frozen / down servers receive nothing new (C08), same clause as C03 (a)
                   ('C08', 'forall(lambda n: implies(n in self.apps and self.apps[n].server is not None and '
@@ -436,6 +445,7 @@ invariant(M + ':Cell._find_placements', 0, 'for app in queue',
                    '  (qidx(queue, self.apps[n]) < _i or self.apps[n] in evicted)), "Name")'),
            ('C03', 'forall(lambda a: implies(a in evicted, evicted[a][0].name == old(a.server)), "Application")'),
            ('C03', 'clock_now() >= old(clock_now())'), ('C03', 'lease_same(self)'),
+           ('C04', 'tree_wf()'), ('C04', 'limits_shared(self)'), ('C04', 'lim_ok()', 'lim_ok'),
            ('C08', 'nonup_kept_unless_capped(self, servers)'),
            ('C08', 'forall(lambda n: implies(n in self.apps and self.apps[n].server is not None and '
                    '  self.apps[n].server != old(self.apps[n].server), '
@@ -469,6 +479,7 @@ invariant(M + ':Cell._find_placements', 1, 'for evicted_app in reversed_queue',
                    '  (qidx(queue, self.apps[n]) < (qidx(queue, app) + 1) or self.apps[n] in evicted)), "Name")'),
            ('C03', 'forall(lambda a: implies(a in evicted, evicted[a][0].name == old(a.server)), "Application")'),
            ('C03', 'clock_now() >= old(clock_now())'), ('C03', 'lease_same(self)'),
+           ('C04', 'tree_wf()'), ('C04', 'limits_shared(self)'), ('C04', 'lim_ok()', 'lim_ok'),
            ('C08', 'nonup_kept_unless_capped(self, servers)'),
            ('C08', 'forall(lambda n: implies(n in self.apps and self.apps[n].server is not None and '
                    '  self.apps[n].server != old(self.apps[n].server), '
@@ -522,7 +533,9 @@ contract(M + ':Cell._fix_invalid_placements',
          requires=['covers(queue, self)', 'apps_ok(self)', 'srv_ok(servers)', 'back_ok(self, servers)',
                    'weak_link(self, servers)', 'ident_weak(self, servers)',
                    ('C05', 'groups_ok(self)'), ('C05', 'held_distinct(self)'), ('C05', 'held_not_free(self)'), ('C05', 'ident_nonneg(self)'), ('C05', 'all_unplaced_free(self)'),
-                   ('C03', 'standing_ok(self, servers)')],
+                   ('C03', 'standing_ok(self, servers)'),
+                   ('C04', 'tree_wf()'), ('C04', 'self.parent is None'), ('C04', 'limits_shared(self)'),
+                   ('C04', 'lim_ok()')],
          ensures=['apps_ok(self)', 'srv_ok(servers)', 'back_ok(self, servers)', 'link_ok(self, servers)',
                   'ident_ok(self)',
                   ('C05', 'groups_ok(self)'), ('C05', 'held_distinct(self)'), ('C05', 'held_not_free(self)'), ('C05', 'ident_nonneg(self)'), ('C05', 'all_unplaced_free(self)'),
@@ -546,8 +559,10 @@ contract(M + ':Cell._handle_blacklisted_apps',
          requires=['covers(queue, self)', 'apps_ok(self)', 'srv_ok(servers)', 'back_ok(self, servers)',
                    'link_ok(self, servers)', 'tree_ok(servers)', 'ident_ok(self)',
                    ('C05', 'groups_ok(self)'), ('C05', 'held_distinct(self)'), ('C05', 'held_not_free(self)'), ('C05', 'ident_nonneg(self)'), ('C05', 'all_unplaced_free(self)'),
-                   ('C03', 'standing_ok(self, servers)')],
-         ensures=['apps_ok(self)', 'srv_ok(servers)', 'back_ok(self, servers)', 'link_ok(self, servers)', 'ident_ok(self)',
+                   ('C03', 'standing_ok(self, servers)'),
+                   ('C04', 'tree_wf()'), ('C04', 'self.parent is None'), ('C04', 'limits_shared(self)'),
+                   ('C04', 'lim_ok()')],
+         ensures=[('C04', 'lim_ok()', 'lim_ok'), 'apps_ok(self)', 'srv_ok(servers)', 'back_ok(self, servers)', 'link_ok(self, servers)', 'ident_ok(self)',
                   ('C05,C08', 'blacklist_ok(self)'),
                   ('C05', 'groups_ok(self)'), ('C05', 'held_distinct(self)'), ('C05', 'held_not_free(self)'), ('C05', 'ident_nonneg(self)'), ('C05', 'all_unplaced_free(self)'),
                   ('C03', 'standing_ok(self, servers)'), ('C03', 'clock_now() >= old(clock_now())'),
@@ -555,7 +570,8 @@ contract(M + ':Cell._handle_blacklisted_apps',
                   ('C08', 'forall(lambda n: implies(n in self.apps and not self.apps[n].blacklisted, self.apps[n].server == old(self.apps[n].server)), "Name")')],
          modifies=PREPASS_MODIFIES, props=['C01', 'C05', 'C08'])
 invariant(M + ':Cell._handle_blacklisted_apps', 0, 'for app in queue',
-          ['srv_ok(servers)', 'back_ok(self, servers)', 'link_ok(self, servers)', 'ident_ok(self)',
+          [('C04', 'lim_ok()', 'lim_ok'), ('C04', 'tree_wf()'), ('C04', 'limits_shared(self)'),
+           'srv_ok(servers)', 'back_ok(self, servers)', 'link_ok(self, servers)', 'ident_ok(self)',
            ('C05,C08', 'forall(lambda j: implies(0 <= j and j < _i and queue[j].blacklisted, '
                    '       queue[j].server is None), "Int")'),
            ('C05', 'groups_ok(self)'), ('C05', 'held_distinct(self)'), ('C05', 'held_not_free(self)'), ('C05', 'ident_nonneg(self)'), ('C05', 'all_unplaced_free(self)'),
@@ -568,8 +584,10 @@ contract(M + ':Cell._fix_invalid_identities',
          requires=['covers(queue, self)', 'apps_ok(self)', 'srv_ok(servers)', 'back_ok(self, servers)',
                    'link_ok(self, servers)', 'tree_ok(servers)', 'ident_ok(self)', ('C05,C08', 'blacklist_ok(self)'),
                    ('C05', 'groups_ok(self)'), ('C05', 'held_distinct(self)'), ('C05', 'held_not_free(self)'), ('C05', 'ident_nonneg(self)'), ('C05', 'all_unplaced_free(self)'),
-                   ('C03', 'standing_ok(self, servers)')],
-         ensures=['apps_ok(self)', 'srv_ok(servers)', 'back_ok(self, servers)', 'link_ok(self, servers)', 'ident_ok(self)', ('C05,C08', 'blacklist_ok(self)'),
+                   ('C03', 'standing_ok(self, servers)'),
+                   ('C04', 'tree_wf()'), ('C04', 'self.parent is None'), ('C04', 'limits_shared(self)'),
+                   ('C04', 'lim_ok()')],
+         ensures=[('C04', 'lim_ok()', 'lim_ok'), 'apps_ok(self)', 'srv_ok(servers)', 'back_ok(self, servers)', 'link_ok(self, servers)', 'ident_ok(self)', ('C05,C08', 'blacklist_ok(self)'),
                   ('C05', 'forall(lambda n: implies(n in self.apps and self.apps[n].identity is not None and '
                           '  self.apps[n].identity_group_ref is not None, '
                           '  self.apps[n].identity < self.apps[n].identity_group_ref.count), "Name")'),
@@ -580,7 +598,8 @@ contract(M + ':Cell._fix_invalid_identities',
                   ('C08', 'nonup_kept(self, servers)', 'nonup_kept')],
          modifies=PREPASS_MODIFIES, props=['C01', 'C05'])
 invariant(M + ':Cell._fix_invalid_identities', 0, 'for app in queue',
-          ['srv_ok(servers)', 'back_ok(self, servers)', 'link_ok(self, servers)', 'ident_ok(self)', ('C05,C08', 'blacklist_ok(self)'),
+          [('C04', 'lim_ok()', 'lim_ok'), ('C04', 'tree_wf()'), ('C04', 'limits_shared(self)'),
+           'srv_ok(servers)', 'back_ok(self, servers)', 'link_ok(self, servers)', 'ident_ok(self)', ('C05,C08', 'blacklist_ok(self)'),
            ('C05,C08', 'forall(lambda j: implies(0 <= j and j < _i and queue[j].identity is not None and '
                    '  queue[j].identity_group_ref is not None, '
                    '  queue[j].identity < queue[j].identity_group_ref.count), "Int")'),
@@ -604,8 +623,10 @@ contract(M + ':Cell._handle_inactive_servers',
          requires=['apps_ok(self)', 'srv_ok(servers)', 'back_ok(self, servers)', 'link_ok(self, servers)',
                    'tree_ok(servers)', 'ident_ok(self)',
                    ('C05', 'groups_ok(self)'), ('C05', 'held_distinct(self)'), ('C05', 'held_not_free(self)'), ('C05', 'ident_nonneg(self)'), ('C05', 'all_unplaced_free(self)'),
-                   ('C03', 'standing_ok(self, servers)')],
-         ensures=['apps_ok(self)', 'srv_ok(servers)', 'back_ok(self, servers)', 'link_ok(self, servers)',
+                   ('C03', 'standing_ok(self, servers)'),
+                   ('C04', 'tree_wf()'), ('C04', 'self.parent is None'), ('C04', 'limits_shared(self)'),
+                   ('C04', 'lim_ok()')],
+         ensures=[('C04', 'lim_ok()', 'lim_ok'), 'apps_ok(self)', 'srv_ok(servers)', 'back_ok(self, servers)', 'link_ok(self, servers)',
                   'ident_ok(self)',
                   ('C05', 'groups_ok(self)'), ('C05', 'held_distinct(self)'), ('C05', 'held_not_free(self)'), ('C05', 'ident_nonneg(self)'), ('C05', 'all_unplaced_free(self)'),
                   ('C03', 'standing_ok(self, servers)'), ('C03', 'clock_now() >= old(clock_now())'),
@@ -613,13 +634,15 @@ contract(M + ':Cell._handle_inactive_servers',
                   ('C08', 'kept_ok(self, servers)')],
          modifies=PREPASS_MODIFIES + ['self.next_event_at'], props=['C01', 'C05', 'C08'])
 invariant(M + ':Cell._handle_inactive_servers', 0, 'for server in servers.values()',
-          ['srv_ok(servers)', 'back_ok(self, servers)', 'link_ok(self, servers)', 'ident_ok(self)',
+          [('C04', 'lim_ok()', 'lim_ok'), ('C04', 'tree_wf()'), ('C04', 'limits_shared(self)'),
+           'srv_ok(servers)', 'back_ok(self, servers)', 'link_ok(self, servers)', 'ident_ok(self)',
            ('C05', 'groups_ok(self)'), ('C05', 'held_distinct(self)'), ('C05', 'held_not_free(self)'), ('C05', 'ident_nonneg(self)'), ('C05', 'all_unplaced_free(self)'),
            ('C03', 'standing_ok(self, servers)'), ('C03', 'clock_now() >= old(clock_now())'),
            ('C03', 'only_unplaced(self)'),
            ('C08', 'kept_ok(self, servers)')])
 invariant(M + ':Cell._handle_inactive_servers', 1, 'for (name, app) in server.apps.items()',
-          ['srv_ok(servers)', 'back_ok(self, servers)', 'link_ok(self, servers)', 'ident_ok(self)',
+          [('C04', 'lim_ok()', 'lim_ok'), ('C04', 'tree_wf()'), ('C04', 'limits_shared(self)'),
+           'srv_ok(servers)', 'back_ok(self, servers)', 'link_ok(self, servers)', 'ident_ok(self)',
            'server.apps == at_loop_entry(server.apps)',
            'forall(lambda p: implies(0 <= p and p < len(to_be_moved), to_be_moved[p].name in server.apps and '
            '       server.apps[to_be_moved[p].name] == to_be_moved[p] and _pos(to_be_moved[p].name) < _i), "Int")',
@@ -634,7 +657,8 @@ invariant(M + ':Cell._handle_inactive_servers', 1, 'for (name, app) in server.ap
                    '  to_be_moved[p].data_retention_timeout is None or '
                    '  since + to_be_moved[p].data_retention_timeout <= clock_now()), "Int")')])
 invariant(M + ':Cell._handle_inactive_servers', 2, 'for app in to_be_moved',
-          ['srv_ok(servers)', 'back_ok(self, servers)', 'link_ok(self, servers)', 'ident_ok(self)',
+          [('C04', 'lim_ok()', 'lim_ok'), ('C04', 'tree_wf()'), ('C04', 'limits_shared(self)'),
+           'srv_ok(servers)', 'back_ok(self, servers)', 'link_ok(self, servers)', 'ident_ok(self)',
            'moved_ok(to_be_moved, server, _i)',
            ('C05', 'groups_ok(self)'), ('C05', 'held_distinct(self)'), ('C05', 'held_not_free(self)'), ('C05', 'ident_nonneg(self)'), ('C05', 'all_unplaced_free(self)'),
            ('C03', 'standing_ok(self, servers)'), ('C03', 'clock_now() >= old(clock_now())'),
@@ -697,8 +721,8 @@ contract(M + ':Cell.schedule_alloc',
          requires=['alloc_in_cell(allocation, self)', 'cycle_pre(self, servers)', 'link_ok(self, servers)',
                    'ident_ok(self)', ('C05', 'groups_ok(self)'), ('C05', 'held_distinct(self)'), ('C05', 'held_not_free(self)'), ('C05', 'ident_nonneg(self)'), ('C05', 'all_unplaced_free(self)'), ('C05', 'in_range_ok(self)'),
                    ('C05,C08', 'blacklist_ok(self)'),
-                   ('C03', 'standing_ok(self, servers)')],
-         ensures=['cycle_pre(self, servers)', 'link_ok(self, servers)', 'ident_ok(self)', ('C05', 'groups_ok(self)'), ('C05', 'held_distinct(self)'), ('C05', 'held_not_free(self)'), ('C05', 'ident_nonneg(self)'), ('C05', 'all_unplaced_free(self)'),
+                   ('C03', 'standing_ok(self, servers)'), ('C04', 'tree_wf()'), ('C04', 'self.parent is None'), ('C04', 'limits_shared(self)'), ('C04', 'lim_ok()')],
+         ensures=[('C04', 'lim_ok()', 'lim_ok'), 'cycle_pre(self, servers)', 'link_ok(self, servers)', 'ident_ok(self)', ('C05', 'groups_ok(self)'), ('C05', 'held_distinct(self)'), ('C05', 'held_not_free(self)'), ('C05', 'ident_nonneg(self)'), ('C05', 'all_unplaced_free(self)'),
                   ('C05', 'in_range_ok(self)'),
                   ('C05,C08', 'blacklist_ok(self)'),
                   ('C03', 'standing_ok(self, servers)'), ('C03', 'clock_now() >= old(clock_now())'),
@@ -707,7 +731,7 @@ contract(M + ':Cell.schedule_alloc',
                   ('C03', 'lease_same(self)')],
          modifies=FIND_MODIFIES + [('Application.final_rank', 'lambda a: True'),
                                    ('Application.final_util', 'lambda a: True')],
-         props=['C01', 'C03', 'C05'])
+         props=['C01', 'C03', 'C04', 'C05'])
 
 contract(M + ':Cell.schedule',
          types={'return': 'List[Tuple[Name,Opt[Name],Opt[Real],Opt[Name],Opt[Real]]]',
@@ -719,8 +743,11 @@ contract(M + ':Cell.schedule',
                    '       alloc_in_cell(self.partitions[l].allocation, self)), "Opt[Name]")',
                    ('C05', 'groups_ok(self)'), ('C05', 'held_distinct(self)'), ('C05', 'held_not_free(self)'), ('C05', 'ident_nonneg(self)'), ('C05', 'all_unplaced_free(self)'),
                    ('C03', 'standing_ok(self, MEMBERS)'),
-                   ('C03', 'forall(lambda l: implies(l in self.partitions, self.partitions[l].allocation.label == l), "Opt[Name]")')],
-         ensures=[('C01', 'srv_ok(MEMBERS)'), ('C01', 'link_ok(self, MEMBERS)'), ('C01', 'back_ok(self, MEMBERS)'),
+                   ('C03', 'forall(lambda l: implies(l in self.partitions, self.partitions[l].allocation.label == l), "Opt[Name]")'),
+                   ('C04', 'tree_wf()'), ('C04', 'self.parent is None'), ('C04', 'limits_shared(self)'), ('C04', 'lim_ok()')],
+         ensures=[# C04: after the cycle the count of an affinity is within its limit at every node of the tree
+                  ('C04', 'lim_ok()', 'lim_ok'),
+                  ('C01', 'srv_ok(MEMBERS)'), ('C01', 'link_ok(self, MEMBERS)'), ('C01', 'back_ok(self, MEMBERS)'),
                   ('C01', 'apps_ok(self)'), ('C05', 'ident_ok(self)'),
                   # C05: unique, in range, held by every placed instance of a group, and only by placed ones
                   ('C05', 'groups_ok(self)'), ('C05', 'held_distinct(self)'), ('C05', 'held_not_free(self)'), ('C05', 'ident_nonneg(self)'), ('C05', 'all_unplaced_free(self)'), ('C05', 'in_range_ok(self)'),
@@ -731,10 +758,11 @@ contract(M + ':Cell.schedule',
          modifies=FIND_MODIFIES + [('Application.final_rank', 'lambda a: True'),
                                    ('Application.final_util', 'lambda a: True'),
                                    ('Allocation.label', 'lambda a: True'), 'self.next_event_at'],
-         props=['C01', 'C03', 'C05', 'C08'])
+         props=['C01', 'C03', 'C04', 'C05', 'C08'])
 invariant(M + ':Cell.schedule', 0, 'for (label, partition) in six.iteritems(self.partitions)', [])
 invariant(M + ':Cell.schedule', 1, 'for (label, partition) in six.iteritems(self.partitions)',
           ['cycle_pre(self, servers)', 'link_ok(self, servers)', 'ident_ok(self)', 'servers == MEMBERS',
+           ('C04', 'lim_ok()', 'lim_ok'),
            ('C05', 'groups_ok(self)'), ('C05', 'held_distinct(self)'), ('C05', 'held_not_free(self)'), ('C05', 'ident_nonneg(self)'), ('C05', 'all_unplaced_free(self)'), ('C05', 'in_range_ok(self)'),
            ('C05,C08', 'blacklist_ok(self)'),
            ('C03', 'standing_ok(self, servers)'), ('C03', 'clock_now() >= old(clock_now())'),
